@@ -476,6 +476,22 @@ VALID_CORPUS = [
     "contains\n real function sq_area(self)\n  class(sq), intent(in) :: self\n  sq_area = self%a**2\n end function\nend module shapes\n",
     "subroutine outer(n, f)\n implicit none\n integer, intent(in) :: n\n interface\n  real function f(x)\n   real, intent(in) :: x\n  end function f\n end interface\n"
     " integer :: i\n select case (n)\n case (1)\n  i = 1\n case default\n  i = 2\n end select\n where ([1,2] > 1)\n end where\n do i = 1, n\n  if (i > 2) exit\n end do\nend subroutine outer\n",
+    # END INTERFACE repeating a generic spec that is not a plain name; module procedures after it use the host's type
+    "module vecs\n implicit none\n type :: vec\n  real :: x, y\n end type vec\n interface operator(+)\n  module procedure add_vec\n end interface operator(+)\n"
+    " interface assignment(=)\n  module procedure set_vec\n end interface assignment(=)\n interface operator(.dot.)\n  module procedure dot_vec\n end interface operator(.dot.)\n"
+    " interface write(formatted)\n  module procedure wf_vec\n end interface write(formatted)\ncontains\n"
+    " function add_vec(a, b) result(c)\n  type(vec), intent(in) :: a, b\n  type(vec) :: c\n  c%x = a%x + b%x\n  c%y = a%y + b%y\n end function add_vec\n"
+    " subroutine set_vec(a, r)\n  type(vec), intent(out) :: a\n  real, intent(in) :: r\n  a%x = r\n  a%y = r\n end subroutine set_vec\n"
+    " real function dot_vec(a, b)\n  type(vec), intent(in) :: a, b\n  dot_vec = a%x*b%x + a%y*b%y\n end function dot_vec\n"
+    " subroutine wf_vec(dtv, unit, iotype, v_list, iostat, iomsg)\n  class(vec), intent(in) :: dtv\n  integer, intent(in) :: unit\n  character(*), intent(in) :: iotype\n"
+    "  integer, intent(in) :: v_list(:)\n  integer, intent(out) :: iostat\n  character(*), intent(inout) :: iomsg\n  iostat = 0\n end subroutine wf_vec\nend module vecs\n",
+    # an interface body has its own implicit mapping: no IMPLICIT NONE inherited from the host (fixed in /repo: 244faaf)
+    "module ifb\n implicit none\n interface\n  subroutine s(a)\n  end subroutine s\n  function f(i)\n  end function f\n end interface\nend module ifb\n",
+]
+
+# valid programs on which the unmodified tree publishes an error: known findings, each with its own signature
+KNOWN_INVALID = [
+    ("C07:main-program-without-program-statement", "integer :: i\ni = 1\nend\n"),
 ]
 
 
@@ -486,6 +502,13 @@ def check_corpus(ctx):
         errs = [d for d in diags if d[1] == 1]
         if errs:
             ctx.report("C07:error-on-valid", "an error-severity diagnostic on a valid program: %s (line %d)" % (errs[0][0], errs[0][2]),
+                       {"kind": "counterexample", "input": {"text": text}, "implementation": diags})
+    for sig, text in KNOWN_INVALID:
+        diags = diagnostics_of(text)
+        ctx.count(("valid-corpus", sig), True)
+        errs = [d for d in diags if d[1] == 1]
+        if errs:
+            ctx.report(sig, "an error-severity diagnostic on a valid program: %s (line %d)" % (errs[0][0], errs[0][2]),
                        {"kind": "counterexample", "input": {"text": text}, "implementation": diags})
 
 
